@@ -63,7 +63,7 @@ var yieldOnlyFiles = map[string]bool{
 }
 
 type stats struct {
-	Files, TimeSites, SyncImports, GoStmts, Selects, Recvs, Sends, Closes, Yields int
+	Files, TimeSites, SyncImports, GoStmts, Selects, Recvs, Sends, Closes, Yields, Pools int
 }
 
 func fail(format string, a ...interface{}) {
@@ -191,8 +191,34 @@ func rewriteFile(path, rel string, st *stats) ([]byte, bool) {
 		}
 	}
 
-	// --- concurrency ---
+	// --- sync.Pool (everywhere) ---
+	// Which item a sync.Pool hands out depends on processors and garbage collection; the shim's Pool always
+	// hands out the most recently returned one (see vsync.Pool). Packages whose whole sync import is replaced
+	// below get it through that import.
 	dir := filepath.ToSlash(filepath.Dir(rel))
+	needSyncKeep := ""
+	if sname, _ := importName(f, "sync"); sname != "" && sname != "_" && sname != "." && !concPkgs[dir] {
+		n := 0
+		ast.Inspect(f, func(nd ast.Node) bool {
+			se, ok := nd.(*ast.SelectorExpr)
+			if !ok {
+				return true
+			}
+			if id, ok := se.X.(*ast.Ident); ok && id.Name == sname && id.Obj == nil && se.Sel.Name == "Pool" {
+				id.Name = "verifvsync"
+				n++
+			}
+			return true
+		})
+		if n > 0 {
+			st.Pools += n
+			changed = true
+			needSyncKeep = sname
+			addImports = append(addImports, `verifvsync "`+shimBase+`vsync"`)
+		}
+	}
+
+	// --- concurrency ---
 	if concPkgs[dir] {
 		core := coreFiles[filepath.ToSlash(rel)]
 		if _, im := importName(f, "sync"); im != nil {
@@ -262,6 +288,9 @@ func rewriteFile(path, rel string, st *stats) ([]byte, bool) {
 	src = src[:at+eol] + ins + src[at+eol:]
 	if needTimeKeep {
 		src += "\nvar _ time.Duration\n"
+	}
+	if needSyncKeep != "" {
+		src += "\nvar _ " + needSyncKeep + ".Locker\n"
 	}
 	// sanity: the result must parse
 	if _, err := parser.ParseFile(token.NewFileSet(), path, src, 0); err != nil {
